@@ -260,8 +260,26 @@ def run_property(pid, tier, seed):
         # ---- triage
         relevant = []
         other = []
+        arm_cache = {}
         for fl in res.failures:
             tp = tag_props(b, fl.tag)
+            c = b.contracts.get(fl.fid)
+            if c is not None and c.arms and set(pclosure) & set(p for ps, _ in c.arms for p in ps):
+                # attribute per match arm: a property listed in `arms` is charged only if one of its arms fails
+                if fl.fid not in arm_cache:
+                    from .bisect import failing_arms
+                    vname = "::".join(fl.fid.split("::")[1:])
+                    arm_cache[fl.fid] = failing_arms(path, vname)
+                bad_arms = [pat for pat, ok in arm_cache[fl.fid] if ok is not True]
+                armprops = set(p for ps, _ in c.arms for p in ps)
+                charged = set()
+                for ps, kws in c.arms:
+                    if any(any(kw in pat.split() for kw in kws) for pat in bad_arms):
+                        charged |= set(ps)
+                if not arm_cache[fl.fid]:
+                    charged = armprops          # could not split: stay conservative
+                tp = sorted((set(tp) - armprops) | (set(tp) & charged))
+                info["notes"].append({"function": fl.fid, "failing_arms": bad_arms})
             if fl.callee_clause:
                 tp = sorted(set(tp) | set(tag_props(b, fl.callee_clause)))
             if not fl.fid and not fl.tag:
@@ -340,7 +358,7 @@ def thorough_extras(wd, b, path, res0, seed):
     flips = []
     base_fail = sorted(set(f.tag for f in res0.failures))
     for k, rl in ((1, 10), (2, 10), (3, 40), (4, 40)):
-        r = run_verus(path, b, rlimit=rl, extra=["-V", f"smt-option=smt.random_seed={seed * 7 + k}", "-V", f"smt-option=sat.random_seed={seed * 7 + k}"])
+        r = run_verus(path, b, rlimit=rl, extra=["--smt-option", f"smt.random_seed={seed * 7 + k}", "--smt-option", f"sat.random_seed={seed * 7 + k}"])
         ft = sorted(set(f.tag for f in r.failures))
         out["seeds"].append({"seed": seed * 7 + k, "rlimit": rl, "verified": r.verified, "errors": r.errors,
                              "resource": r.resource[:2], "smt_ms": r.smt_ms})
